@@ -465,7 +465,11 @@ def _strip_opt(n):
 
 
 def rule_emission(ck, F, X):
-    node_calls = [ev for ev in X.events.get(T.ROOT, []) if ev.kind == "call" and "node::RustNode" in ev.callee]
+    # calls of the node writer anywhere under the document writer (private helper methods inlined, the node writer itself is the anchor)
+    node_calls = []
+    for ev in T.inline(X, T.ROOT):
+        if ev.kind == "call" and "node::RustNode" in ev.callee and not any("node::RustNode" in c for c in ev.chain):
+            node_calls.append(ev)
     # each emission site: which nodes of self.nodes it visits, read off the loop context (loops, filters, if/continue alike)
     kinds = []
     for ev in node_calls:
@@ -486,8 +490,8 @@ def rule_emission(ck, F, X):
                      f"per-target-namespace selection and the no-namespace selection (a node could be emitted twice or never)")
     for ev in node_calls:
         inner = [c for c in ev.ctx if c[0] == "star"]
-        if ev.propagated != "try":
-            ck.violation("R5", "node-write-propagated", ev.site, "node emission result not propagated")
+        if ev.propagated not in ("try", "closure-try", "tail", "returned"):
+            ck.violation("R5", "node-write-propagated", ev.site, f"node emission result not propagated ({ev.propagated})")
     # every RustNode gets in_namespace = doc.current_target_namespace
     sums = [s for s in og.field_summaries(F, "node::RustNode") if "Clone" not in s[0]]
     for (fn, site, ctx, fields, base) in sums:
